@@ -1,11 +1,13 @@
 (* driver.ml — line protocol between the Python harness and the extracted
    model.  One s-expression per input line, one result line per input line. *)
+module OS = Stdlib.String
+type ostring = string
 open Model
 
-type sx = A of string | L of sx list
+type sx = A of ostring | L of sx list
 
-let parse_sx (s : string) : sx =
-  let n = String.length s in
+let parse_sx (s : ostring) : sx =
+  let n = OS.length s in
   let pos = ref 0 in
   let rec skip () = if !pos < n && (s.[!pos] = ' ' || s.[!pos] = '\t') then (incr pos; skip ()) in
   let rec item () =
@@ -22,7 +24,7 @@ let parse_sx (s : string) : sx =
     end else begin
       let st = !pos in
       while !pos < n && s.[!pos] <> ' ' && s.[!pos] <> '(' && s.[!pos] <> ')' do incr pos done;
-      A (String.sub s st (!pos - st))
+      A (OS.sub s st (!pos - st))
     end in
   item ()
 
@@ -35,10 +37,28 @@ let z_of_int (i : int) : z = if i = 0 then Z0 else if i > 0 then Zpos (pos_of_in
 let rec int_of_pos (p : positive) : int = match p with XH -> 1 | XO q -> 2 * int_of_pos q | XI q -> 2 * int_of_pos q + 1
 let int_of_z (x : z) : int = match x with Z0 -> 0 | Zpos p -> int_of_pos p | Zneg p -> - (int_of_pos p)
 
-let extz_of_string (s : string) : extz =
+let extz_of_string (s : ostring) : extz =
   if s = "inf" then PosInf else if s = "-inf" then NegInf else Fin (z_of_int (int_of_string s))
-let string_of_extz (x : extz) : string =
+let string_of_extz (x : extz) : ostring =
   match x with PosInf -> "inf" | NegInf -> "-inf" | Fin a -> string_of_int (int_of_z a)
+
+(* OCaml string <-> Coq string (ascii = eight booleans, least significant first) *)
+let ascii_of_char (c : char) : ascii =
+  let n = Char.code c in
+  let b i = (n lsr i) land 1 = 1 in
+  Ascii (b 0, b 1, b 2, b 3, b 4, b 5, b 6, b 7)
+let char_of_ascii (a : ascii) : char =
+  match a with Ascii (b0, b1, b2, b3, b4, b5, b6, b7) ->
+    let v b i = if b then 1 lsl i else 0 in
+    Char.chr (v b0 0 + v b1 1 + v b2 2 + v b3 3 + v b4 4 + v b5 5 + v b6 6 + v b7 7)
+let coq_string (s : ostring) : string =
+  let r = ref EmptyString in
+  for i = OS.length s - 1 downto 0 do r := String (ascii_of_char s.[i], !r) done; !r
+let rec ocaml_string (s : string) : ostring =
+  match s with EmptyString -> "" | String (a, r) -> OS.make 1 (char_of_ascii a) ^ ocaml_string r
+let unhex (h : ostring) : ostring =
+  (* the first character is a marker so that the empty text is a non-empty atom *)
+  OS.init ((OS.length h - 1) / 2) (fun i -> Char.chr (int_of_string ("0x" ^ OS.sub h (2 * i + 1) 2)))
 
 let atom = function A s -> s | L _ -> failwith "atom expected"
 let lst = function L l -> l | A _ -> failwith "list expected"
@@ -89,7 +109,7 @@ let rec formula_of_sx (x : sx) : formula =
 let col_of_sx (x : sx) : v list = List.map v_of_sx (lst x)
 let trace_of_sx (x : sx) : v list list = List.map col_of_sx (lst x)
 
-let show_vals (l : extz list) : string = String.concat " " (List.map string_of_extz l)
+let show_vals (l : extz list) : ostring = OS.concat " " (List.map string_of_extz l)
 let show_bool b = if b then "1" else "0"
 
 let sem_of = function
@@ -102,7 +122,7 @@ let pk_of_sx (x : sx) =
   | L [A "iaspec"; sem; L io] -> pk_ia_spec (sem_of (atom sem)) (List.map (fun b -> atom b = "1") io)
   | _ -> failwith "pk"
 
-let handle (x : sx) : string =
+let handle (x : sx) : ostring =
   match x with
   | L [A "off"; pk; f; n; w] ->
       let pk = pk_of_sx pk and f = formula_of_sx f and n = nat_of_sx n and w = trace_of_sx w in
@@ -123,7 +143,7 @@ let handle (x : sx) : string =
       let spec = run_past_spec f w n in
       Printf.sprintf "ON %s | SPEC %s | GUARD %s | EXACT %s | HOR %d"
         (show_vals (run_on pk_std [pf] w n))
-        (String.concat " " (List.map (function None -> "_" | Some v -> string_of_extz v) spec))
+        (OS.concat " " (List.map (function None -> "_" | Some v -> string_of_extz v) spec))
         (show_bool (run_past_guard f)) (show_bool (run_exact pk_std pf w n && run_exact pk_std f w n)) (int_of_nat (run_hor f))
   | L [A "jitter"; p; tol; L ts] ->
       let q_of = function L [a; b] -> { qnum = z_of_int (int_of_string (atom a)); qden = pos_of_int (int_of_string (atom b)) } | _ -> failwith "q" in
@@ -134,13 +154,20 @@ let handle (x : sx) : string =
       let pf = run_pastify (atom stl = "stl") f in
       let b k g = show_bool (run_supported (nat_of_int k) g) in
       Printf.sprintf "SUPP %s %s %s %s | PSUPP %s %s | BF %s" (b 0 f) (b 1 f) (b 2 f) (b 3 f) (b 1 pf) (b 3 pf) (show_bool (run_bounded_future f))
+  | L [A "parse"; fe; du; L cs; A hex] ->
+      let du = (match atom du with "s" -> KS | "ms" -> KMs | "us" -> KUs | _ -> KNs) in
+      let cs = List.map (function L [a; b] -> (coq_string (atom a), coq_string (atom b)) | _ -> failwith "const") cs in
+      (match run_parse (atom fe = "stl") cs du (coq_string (unhex hex)) with
+       | Ok f -> "OK " ^ OS.concat " ; " (List.map ocaml_string f)
+       | Rtamt -> "RTAMT"
+       | Crash -> "CRASH")
   | L [A "info"; f] ->
       let f = formula_of_sx f in
       Printf.sprintf "HOR %d | BF %s | PAST %s | ISBOOL %s" (int_of_nat (run_hor f)) (show_bool (run_bounded_future f))
         (show_bool (run_past_only f)) (show_bool (run_is_bool f))
   | L [A "sat"; f; n; w] ->
       let f = formula_of_sx f and n = nat_of_sx n and w = trace_of_sx w in
-      Printf.sprintf "SAT %s | RHO %s | EXACT %s | ISBOOL %s" (String.concat " " (List.map show_bool (run_sat f w n)))
+      Printf.sprintf "SAT %s | RHO %s | EXACT %s | ISBOOL %s" (OS.concat " " (List.map show_bool (run_sat f w n)))
         (show_vals (run_rho pk_std f w n)) (show_bool (run_exact pk_std f w n)) (show_bool (run_is_bool f))
   | _ -> failwith "unknown command"
 
@@ -148,7 +175,7 @@ let () =
   try
     while true do
       let line = input_line stdin in
-      (if String.length line > 0 then
+      (if OS.length line > 0 then
         let out = try handle (parse_sx line) with Failure m -> "ERROR " ^ m | Not_found -> "ERROR notfound" | Stack_overflow -> "ERROR stack" in
         print_string out; print_newline ());
       flush stdout
